@@ -35,7 +35,9 @@ type c17State struct {
 
 var c17cur *c17State
 
-func memberKey(m *cluster.NodeState) [2]uint64 { return [2]uint64{uint64(m.Generation), m.LogicalClock} }
+func memberKey(m *cluster.NodeState) [2]uint64 {
+	return [2]uint64{uint64(m.Generation), m.LogicalClock}
+}
 
 func viewSig(v *cluster.ClusterView) string {
 	var parts []string
